@@ -127,7 +127,8 @@ def gen_cases(ctx):
     rng = ctx.rng("cases")
     q = ctx.quick
     sh, ns = ctx.shard, ctx.nshards
-    plan = [(2, 1, None)] if q else [(1, 0, None), (2, 1, None), (3, 2, None), (2, 4, "sigkill"), (3, 0, "sigkill"), (1, 2, None), (2, 0, "sigkill"), (1, 1, "sigkill")]
+    plan = [(2, 1, None)] if q else [(1, 0, None), (2, 1, None), (3, 2, None), (2, 4, "sigkill"), (3, 0, "sigkill"), (1, 2, None), (2, 0, "sigkill"), (1, 1, "sigkill"),
+                                     (2, 1, "KeyboardInterrupt"), (2, 2, "SystemExit(2)")]
     for j, (nw, kth, how) in enumerate(plan):
         if q or j % ns == sh:
             yield spawned_death_case(rng, nw, kth, how)
@@ -164,9 +165,13 @@ def gen_cases(ctx):
         n_items = int(rng.integers(1, 6))
         keys = key_family(rng, 5, 0, 8)
         marks = {i: pick(rng, MARKS + [None]) for i in range(n_items)}
+        lethal = None
         if j % 4 == 0:
-            marks[int(rng.integers(0, n_items))] = "exit"
+            lethal = int(rng.integers(0, n_items))
+            marks[lethal] = "exit"
         items = P.gen_items(rng, n_items, keys, marks=marks)
+        if lethal is not None:
+            items[lethal]["how"] = pick(rng, ["SimulatedDeath", "KeyboardInterrupt", "SystemExit(2)"])
         sched = {w: [] for w in range(nw)}
         for i in rng.permutation(n_items).tolist():
             sched[int(rng.integers(0, nw))].append(i)
